@@ -137,6 +137,10 @@ def impl_main(doc, tag):
         return "crash:%s:%s" % (type(exc).__name__, str(exc)[:100])
 
 
+DRAFT_URIS = ["http://json-schema.org/draft-04/schema#", "http://json-schema.org/draft-06/schema#", "http://json-schema.org/draft-07/schema#",
+              "https://json-schema.org/draft/2019-09/schema", "https://json-schema.org/draft/2020-12/schema", "http://json-schema.org/schema#"]
+
+
 def run(tier, seed, replay=None):
     res = Result("C20", tier, seed)
     rng = rng_for(seed, "C20")
@@ -173,7 +177,13 @@ def run(tier, seed, replay=None):
                 path = rng.choice(pos)
                 kw = rng.choice(UNSUPPORTED_DOC)
                 val = rng.choice(PLANT_VALUES)
-                items.append((plant(b, path, kw, val), "NotImplemented", {"path": list(path), "kw": kw, "val": val, "base": b}))
+                planted = plant(b, path, kw, val)
+                items.append((planted, "NotImplemented", {"path": list(path), "kw": kw, "val": val, "base": b}))
+                if rng.random() < 0.35:
+                    # whatever draft the document says it is written in: the keyword is unsupported by statham all the same
+                    uri = rng.choice(DRAFT_URIS)
+                    items.append((dict(planted, **{"$schema": uri}), "NotImplemented",
+                                  {"path": list(path), "kw": kw, "val": val, "base": b, "declared_draft": uri}))
     # ---- implementation + model on every item ------------------------------------
     cases, metas = [], []
     for s, expect, meta in items:
